@@ -91,13 +91,23 @@ EmitWitness == IF ~st.ok /\ WTag \in st.tags
 \* printed for a (semantic stack, branch) pair is a shortest program that exercises that branch of the model.
 \* The random programs of (2) rarely reach the deeper ones (e.g. a pending delete entry over drained content).
 FOps == {o \in AllOps : o.id \in {"p", "-"}}
+\* In this search `reads` remembers how part p last changed in the ideal store: <<content before the change, how>>
+\* (how = "nil" | "auto" | "tx": tx-free call, single-call transaction, Commit of the caller's transaction), so that
+\* reading a part back after it was OVERWRITTEN (larger by smaller, smaller by larger, with and without a
+\* transaction) is a branch of its own: <<"get", mode, layers..., blob, "overwrote", previous blob, how>>.
+NoChange == <<None, "-">>
+HowOf(o) == IF o.op = "commit" THEN "tx" ELSE o.mode
+Overwrote(o, v) == IF o.op = "get" /\ v \in Blobs /\ reads[1] \in Blobs /\ reads[1] # v
+                   THEN <<"overwrote", reads[1], reads[2]>> ELSE <<>>
 FInit == /\ \E sm \in GenSems : st = InitState(sm, FALSE)
-         /\ n = 0 /\ hist = <<>> /\ reads = 0 /\ case = NoCase /\ feat = <<>>
+         /\ n = 0 /\ hist = <<>> /\ reads = NoChange /\ case = NoCase /\ feat = <<>>
 FNext == /\ n < MaxLen
          /\ \E o \in FOps : /\ Enabled(st, o) /\ (EcDev /\ o.op = "get" => "CRASH" \notin Step(st, o).tags)
-                             /\ st' = Step(st, o) /\ hist' = Append(hist, o) /\ feat' = FeatOf(st, o)
-         /\ n' = n + 1 /\ UNCHANGED <<reads, case>>
-FView == <<[st EXCEPT !.res = NoRes, !.ok = TRUE, !.tags = {}], feat>>
+                             /\ st' = Step(st, o) /\ hist' = Append(hist, o)
+                             /\ feat' = FeatOf(st, o) \o Overwrote(o, st'.res.v)
+                             /\ reads' = IF st'.ideal["p"] # st.ideal["p"] THEN <<st.ideal["p"], HowOf(o)>> ELSE reads
+         /\ n' = n + 1 /\ UNCHANGED case
+FView == <<[st EXCEPT !.res = NoRes, !.ok = TRUE, !.tags = {}], feat, reads>>
 EmitFeat == IF feat # <<>> /\ feat[1] \in {"get", "ids", "drain", "commit", "rollback"}
             THEN PrintT(ToJson([sem |-> st.sem, prog |-> hist, feat |-> feat, reads |-> 0,
                                 reads1 |-> ReadsB1(InitState(st.sem, FALSE), hist), feats |-> Feats(InitState(st.sem, FALSE), hist)]))
